@@ -113,6 +113,11 @@ fn map_cases(out: &mut Vec<Case>, tier: Tier, alphabet: &[K], queries: &[K], max
                     }
                 }
             }
+            // reading returns the value written under that very key (an int key and the uint key
+            // denoting the same number are two entries with values of their own)
+            for (j, k) in keys.iter().enumerate() {
+                push(out, sp, format!("{m}[{}]", k.src()), Some(format!("(ok (int {}))", 10 + j)), vec!["map", form, "read-own-value"]);
+            }
             // the map contains exactly the entries written
             let src = format!("size({m})");
             push(out, sp, src, Some(format!("(ok (int {}))", keys.len())), vec![if keys.is_empty() { "empty" } else { "map" }, form, "size"]);
